@@ -52,6 +52,16 @@ type Model struct {
 	NUnmatchedOut int
 	// Known counts occurrences of recorded (not repaired) defects, by signature.
 	Known map[string]int
+	// Suppressed: Remove events of watched paths that the model left out
+	// because the parent directory was listed, since the last quiescent point.
+	// If that parent's watch is removed while they are still undelivered, the
+	// Watcher (which decides when it handles the notification) may report them.
+	Suppressed []SuppressedEv
+}
+
+type SuppressedEv struct {
+	Ev     Ev
+	Parent string
 }
 
 // SigF5 is the signature of known finding F5 (see known_findings.json).
@@ -163,6 +173,9 @@ func (m *Model) Feed(raws []Raw) []Ev {
 						reports = true
 					}
 				}
+			}
+			if parent != nil {
+				m.Suppressed = append(m.Suppressed, SuppressedEv{Ev{Name: name, Op: OpOf(r.Mask)}, parent.Path})
 			}
 			if parent != nil && reports {
 				m.NDoubleReport++
